@@ -358,10 +358,8 @@ Qed.
 Lemma line_next : forall s,
   match next_line s with
   | LEof => line_pure false s = None
-  | LBareLf => line_pure false s = Some (Panic PArith)
   | LUnclear rest =>
-      exists r, line_pure false s = Some r /\ (forall p, r <> Panic p) /\
-                (forall cmd rest', r = Ok (cmd, rest') -> rest' = rest)
+      exists r, line_pure false s = Some r /\ (forall cmd rest', r = Ok (cmd, rest') -> rest' = rest)
   | LLine body rest => line_pure false s = Some (map_res (fun cmd => (cmd, rest)) (command_of_str (body ++ CRLF)))
   end.
 Proof.
@@ -369,38 +367,20 @@ Proof.
   destruct (cut_line s) as [[seg rest]|] eqn:Hc.
   2:{ apply line_pure_none. apply cut_line_none. exact Hc. }
   destruct (rev seg) as [|last rbody] eqn:Hr.
-  { assert (seg = []) by (apply rev_nil_iff; exact Hr). subst. apply (line_pure_cut_empty _ _ Hc). }
+  { assert (seg = []) by (apply rev_nil_iff; exact Hr). subst. rewrite (line_pure_cut_empty _ _ Hc).
+    eexists. split; [reflexivity|]. intros; discriminate. }
   rewrite (line_pure_cut _ _ _ _ _ Hc Hr). change x0d with CR.
   destruct (negb (beq last CR)) eqn:Ecr.
-  { eexists. split; [reflexivity|]. split; intros; discriminate. }
+  { eexists. split; [reflexivity|]. intros; discriminate. }
   apply negb_false_iff in Ecr. apply beq_eq in Ecr. subst last.
   destruct (negb (is_ascii (rev rbody))) eqn:Ea.
-  { eexists. split; [reflexivity|]. destruct (negb (utf8_valid (rev rbody ++ [CR; LF]))).
-    - split; intros; discriminate.
-    - destruct (command_of_str (rev rbody ++ [CR; LF])) as [cmd|e|p] eqn:E; cbn [map_res].
-      + split; [intros; discriminate|]. intros cmd' rest' H. injection H as _ <-. reflexivity.
-      + split; intros; discriminate.
-      + exfalso. exact (command_of_str_no_panic _ _ E). }
+  { eexists. split; [reflexivity|]. destruct (negb (utf8_valid (rev rbody ++ [CR; LF]))); [intros; discriminate|].
+    destruct (command_of_str (rev rbody ++ [CR; LF])) as [cmd|e|p] eqn:E; cbn [map_res]; try (intros; discriminate).
+    intros cmd' rest' H. injection H as _ <-. reflexivity. }
   apply negb_false_iff in Ea.
   assert (Hutf : utf8_valid (rev rbody ++ [CR; LF]) = true).
   { apply ascii_utf8. rewrite is_ascii_app, Ea. reflexivity. }
   rewrite Hutf. reflexivity.
-Qed.
-
-Lemma next_line_ela : forall s,
-  match next_line s with
-  | LEof => True
-  | LBareLf => empty_line_ahead s true = true
-  | LUnclear rest | LLine _ rest => empty_line_ahead s true = empty_line_ahead rest true
-  end.
-Proof.
-  intro s. unfold next_line.
-  destruct (cut_line s) as [[seg rest]|] eqn:Hc; [|exact I].
-  destruct (rev seg) as [|last rbody] eqn:Hr.
-  { assert (seg = []) by (apply rev_nil_iff; exact Hr). subst. apply (ela_cut_empty _ _ Hc). }
-  assert (Hne : seg <> []) by (intro; subst; discriminate).
-  destruct (negb (beq last x0d)); [apply (ela_cut _ _ _ true Hc Hne)|].
-  destruct (negb (is_ascii (rev rbody))); apply (ela_cut _ _ _ true Hc Hne).
 Qed.
 
 Lemma next_line_decomp : forall s body rest,
@@ -418,56 +398,45 @@ Proof.
   - pose proof (cut_line_no_lf _ _ _ Hc) as Hn. rewrite Hseg, no_lf_app in Hn. apply andb_true_iff in Hn. tauto.
 Qed.
 
-Lemma line_pure_panic : forall s p, line_pure false s = Some (Panic p) -> empty_line_ahead s true = true.
+(* the line reader never panics (the guard lf_index == 0) *)
+Lemma line_pure_no_panic : forall first s p, line_pure first s <> Some (Panic p).
 Proof.
-  intros s p H. pose proof (line_next s) as L. pose proof (next_line_ela s) as E.
-  destruct (next_line s) as [| |rest|body rest].
-  - congruence.
-  - exact E.
-  - destruct L as [r [L1 [L2 _]]]. rewrite L1 in H. injection H as ->. exfalso. apply (L2 p). reflexivity.
-  - rewrite L in H. injection H as H. destruct (command_of_str (body ++ CRLF)) eqn:Ec; cbn in H; try discriminate.
-    exfalso. exact (command_of_str_no_panic _ _ Ec).
+  intros first s p. unfold line_pure.
+  destruct (position_lf s) as [[|k]|]; try discriminate.
+  destruct (negb (beq (nth k s NUL) CR)); [discriminate|].
+  destruct (first && negb (beq (nth 0 s NUL) NUL)); [discriminate|].
+  destruct (negb (utf8_valid _)); [discriminate|].
+  destruct (command_of_str _) eqn:E; cbn; try discriminate.
+  exfalso. exact (command_of_str_no_panic _ _ E).
 Qed.
 
-(* ---------------------------------------------------------------- no panic without a bare LF *)
-Lemma secondary_no_panic : forall cfg g rest fds w,
-  empty_line_ahead rest true = false -> secondary_closed cfg g rest fds <> OPanic w.
+(* ---------------------------------------------------------------- no panic *)
+Lemma secondary_no_panic : forall cfg g rest fds w, secondary_closed cfg g rest fds <> OPanic w.
 Proof.
-  intros cfg g rest fds w He. unfold secondary_closed.
+  intros cfg g rest fds w. unfold secondary_closed.
   destruct (cc_fdcap cfg); [|discriminate].
   destruct (cc_flatpak cfg);
     (destruct (line_pure false rest) as [[[cmd2 rest2]|e|p]|] eqn:L; try discriminate;
      [ destruct cmd2; try discriminate; destruct (lbeq _ _); discriminate
-     | rewrite (line_pure_panic _ _ L) in He; discriminate ]).
+     | exfalso; exact (line_pure_no_panic _ _ _ L) ]).
 Qed.
 
-Lemma closed_no_panic : forall cfg s fds w,
-  empty_line_ahead s true = false -> client_closed cfg s fds <> OPanic w.
+Lemma closed_no_panic : forall cfg s fds w, client_closed cfg s fds <> OPanic w.
 Proof.
-  intros cfg s fds w He. unfold client_closed.
+  intros cfg s fds w. unfold client_closed.
   destruct (line_pure false s) as [[[cmd rest]|e|p]|] eqn:L; try discriminate.
-  - destruct cmd; try discriminate. destruct (guid_check _ _); [|discriminate].
-    apply secondary_no_panic.
-    (* what follows the first line has no bare LF either *)
-    pose proof (line_next s) as N. pose proof (next_line_ela s) as E.
-    destruct (next_line s) as [| |rest'|body rest'].
-    + congruence.
-    + congruence.
-    + destruct N as [r [N1 [_ N3]]]. rewrite N1 in L. injection L as ->. rewrite (N3 _ _ eq_refl). congruence.
-    + rewrite N in L. injection L as L. destruct (command_of_str (body ++ CRLF)); cbn in L; try discriminate.
-      injection L as _ <-. congruence.
-  - rewrite (line_pure_panic _ _ L) in He. discriminate.
+  - destruct cmd; try discriminate. destruct (guid_check _ _); [|discriminate]. apply secondary_no_panic.
+  - exfalso. exact (line_pure_no_panic _ _ _ L).
 Qed.
 
-Theorem client_nopanic_partial : forall cfg cs,
-  chunks_nonempty cs = true -> empty_line_ahead (stream_of cs) true = false -> is_panic (run_client cfg cs) = false.
+Theorem client_nopanic : forall cfg cs, chunks_nonempty cs = true -> is_panic (run_client cfg cs) = false.
 Proof.
-  intros cfg cs Hn He. rewrite (run_client_closed _ _ Hn).
+  intros cfg cs Hn. rewrite (run_client_closed _ _ Hn).
   pose proof (closed_no_panic cfg (stream_of cs) (fds_of cs)) as H.
-  destruct (client_closed cfg (stream_of cs) (fds_of cs)); try reflexivity. exfalso. apply (H w He). reflexivity.
+  destruct (client_closed cfg (stream_of cs) (fds_of cs)); try reflexivity. exfalso. apply (H w). reflexivity.
 Qed.
 
-(* ---------------------------------------------------------------- conformance outside the bare-LF class *)
+(* ---------------------------------------------------------------- conformance, on every stream *)
 Lemma done_with_refl : forall w fd tail fds, done_with fd tail fds (obs_of (ODone w fd tail fds)) = true.
 Proof. intros. unfold done_with. cbn. rewrite Bool.eqb_reflx, lbeq_refl, list_N_eqb_refl. reflexivity. Qed.
 
@@ -477,65 +446,55 @@ Proof. intros fds o H. destruct o; cbn; try reflexivity. exfalso. apply (H w). r
 Lemma guid_check_expected : forall cfg g, guid_check (cc_expected cfg) g = guid_expected (cctx_of cfg) g.
 Proof. reflexivity. Qed.
 
-Lemma secondary_conforms : forall cfg g rest fds v k,
+Lemma secondary_conforms : forall cfg g rest fds,
   cc_fdcap cfg = true ->
-  (match next_line rest with
-   | LEof => (CVFail, None)
-   | LBareLf => (CVUnclear, Some KLfLineStart)
-   | LUnclear rest2 => cunclear rest2
-   | LLine body2 rest2 =>
-       match fd_answer body2 with
-       | AAgree => (CVDone true rest2, None)
-       | ARefuse => (CVDone false rest2, None)
-       | AOther => (CVNoFd rest2, None)
-       end
-   end) = (v, k) ->
-  k = None -> cconforms v fds (obs_of (secondary_closed cfg g rest fds)) = true.
+  cconforms (match next_line rest with
+             | LEof => CVFail
+             | LUnclear _ => CVUnclear
+             | LLine body2 rest2 =>
+                 match fd_answer body2 with
+                 | AAgree => CVDone true rest2
+                 | ARefuse => CVDone false rest2
+                 | AOther => CVNoFd rest2
+                 end
+             end) fds (obs_of (secondary_closed cfg g rest fds)) = true.
 Proof.
-  intros cfg g rest fds v k Hfd Hspec Hk.
-  pose proof (line_next rest) as L. pose proof (next_line_ela rest) as E.
-  destruct (next_line rest) as [| |rest2|body2 rest2].
-  - injection Hspec as <- <-. unfold secondary_closed. rewrite Hfd, L. destruct (cc_flatpak cfg); reflexivity.
-  - injection Hspec as <- <-. discriminate.
-  - unfold cunclear in Hspec. injection Hspec as <- <-.
-    destruct (empty_line_ahead rest2 true) eqn:He; [discriminate|].
-    apply cconforms_unclear. intro w. apply secondary_no_panic. congruence.
+  intros cfg g rest fds Hfd.
+  pose proof (line_next rest) as L.
+  destruct (next_line rest) as [|rest2|body2 rest2].
+  - unfold secondary_closed. rewrite Hfd, L. destruct (cc_flatpak cfg); reflexivity.
+  - apply cconforms_unclear. intro w. apply secondary_no_panic.
   - pose proof (fd_answer_spec body2) as A.
     unfold secondary_closed. rewrite Hfd, L.
     destruct (command_of_str (body2 ++ CRLF)) as [cmd2|e|p] eqn:Ec; cbn [map_res].
-    + destruct cmd2; rewrite A in Hspec; injection Hspec as <- <-; destruct (cc_flatpak cfg); cbn [cconforms];
+    + destruct cmd2; rewrite A; destruct (cc_flatpak cfg); cbn [cconforms];
         try reflexivity; try apply done_with_refl.
       destruct (lbeq _ _); [apply done_with_refl | reflexivity].
-    + rewrite A in Hspec. injection Hspec as <- <-. destruct (cc_flatpak cfg); reflexivity.
+    + rewrite A. destruct (cc_flatpak cfg); reflexivity.
     + exfalso. exact (command_of_str_no_panic _ _ Ec).
 Qed.
 
 Theorem client_conforms : forall cfg cs,
   chunks_nonempty cs = true ->
-  cknown_class (cctx_of cfg) (stream_of cs) = None ->
-  cconforms (cverdict_of (cctx_of cfg) (stream_of cs)) (fds_of cs) (obs_of (run_client cfg cs)) = true.
+  cconforms (spec_client (cctx_of cfg) (stream_of cs)) (fds_of cs) (obs_of (run_client cfg cs)) = true.
 Proof.
-  intros cfg cs Hn Hk. rewrite (run_client_closed _ _ Hn).
+  intros cfg cs Hn. rewrite (run_client_closed _ _ Hn).
   set (s := stream_of cs) in *. set (fds := fds_of cs).
-  unfold cknown_class, cverdict_of in *.
-  destruct (spec_client (cctx_of cfg) s) as [v k] eqn:Hspec. cbn [fst snd] in *. subst k.
-  unfold spec_client in Hspec.
-  pose proof (line_next s) as L. pose proof (next_line_ela s) as E.
-  destruct (next_line s) as [| |rest|body rest].
-  - injection Hspec as <-. unfold client_closed. rewrite L. reflexivity.
-  - discriminate.
-  - unfold cunclear in Hspec. destruct (empty_line_ahead rest true) eqn:He; [discriminate|]. injection Hspec as <-.
-    apply cconforms_unclear. intro w. apply closed_no_panic. congruence.
+  unfold spec_client.
+  pose proof (line_next s) as L.
+  destruct (next_line s) as [|rest|body rest].
+  - unfold client_closed. rewrite L. reflexivity.
+  - apply cconforms_unclear. intro w. apply closed_no_panic.
   - pose proof (ok_guid_spec body) as G. unfold client_closed. rewrite L.
     destruct (command_of_str (body ++ CRLF)) as [cmd|e|p] eqn:Ec; cbn [map_res].
-    + destruct cmd; try (rewrite G in Hspec; injection Hspec as <-; reflexivity).
-      rewrite G in Hspec. rewrite guid_check_expected.
-      destruct (guid_expected (cctx_of cfg) guid); cbn [negb] in Hspec; [|injection Hspec as <-; reflexivity].
-      change (y_fdcap (cctx_of cfg)) with (cc_fdcap cfg) in Hspec.
-      destruct (cc_fdcap cfg) eqn:Hfd; cbn [negb] in Hspec.
-      * eapply secondary_conforms; [exact Hfd | exact Hspec | reflexivity].
-      * injection Hspec as <-. unfold secondary_closed. rewrite Hfd. apply done_with_refl.
-    + rewrite G in Hspec. injection Hspec as <-. reflexivity.
+    + destruct cmd; try (rewrite G; reflexivity).
+      rewrite G. rewrite guid_check_expected.
+      destruct (guid_expected (cctx_of cfg) guid); cbn [negb]; [|reflexivity].
+      change (y_fdcap (cctx_of cfg)) with (cc_fdcap cfg).
+      destruct (cc_fdcap cfg) eqn:Hfd; cbn [negb].
+      * apply secondary_conforms. exact Hfd.
+      * unfold secondary_closed. rewrite Hfd. apply done_with_refl.
+    + rewrite G. reflexivity.
     + exfalso. exact (command_of_str_no_panic _ _ Ec).
 Qed.
 
@@ -613,14 +572,13 @@ Proof.
   intros e He. unfold guid_check in Hg. rewrite He in Hg. apply lbeq_eq. exact Hg.
 Qed.
 
-(* ... and the converse: a proper acceptance completes (outside the bare-LF class this is [client_conforms]) *)
+(* ... and the converse: a proper acceptance completes, with the prescribed fd capability and leftover *)
 Theorem client_complete : forall cfg cs fd tail,
   chunks_nonempty cs = true ->
-  cknown_class (cctx_of cfg) (stream_of cs) = None ->
-  cverdict_of (cctx_of cfg) (stream_of cs) = CVDone fd tail ->
+  spec_client (cctx_of cfg) (stream_of cs) = CVDone fd tail ->
   exists w, run_client cfg cs = ODone w fd tail (fds_of cs).
 Proof.
-  intros cfg cs fd tail Hn Hk Hv. pose proof (client_conforms cfg cs Hn Hk) as Hc. rewrite Hv in Hc.
+  intros cfg cs fd tail Hn Hv. pose proof (client_conforms cfg cs Hn) as Hc. rewrite Hv in Hc.
   destruct (run_client cfg cs) as [w fd' tail' fds'|e w|w]; cbn in Hc; try discriminate.
   unfold done_with in Hc. cbn in Hc.
   apply andb_true_iff in Hc. destruct Hc as [Hc Hfds]. apply andb_true_iff in Hc. destruct Hc as [Hfd Htail].
@@ -631,24 +589,18 @@ Proof.
   subst. eauto.
 Qed.
 
-(* ---------------------------------------------------------------- the full statement and what refutes it *)
-Definition client_full_statement : Prop :=
-  forall cfg cs, chunks_nonempty cs = true ->
-    cconforms (cverdict_of (cctx_of cfg) (stream_of cs)) (fds_of cs) (obs_of (run_client cfg cs)) = true.
-
-Definition ccfg0 : ccfg := mkCcfg (Some Anonymous) External None true false (B "@").
-Definition guid0 : bytes := B "0123456789abcdef0123456789abcdef".
-(* OK <guid>\r\n\n : a bare LF where the answer to NEGOTIATE_UNIX_FD should start *)
-Definition w_lf : list chunk := [mkChunk (B "OK " ++ guid0 ++ [x0d; x0a; x0a]) []].
-
-Theorem client_lf_panic_refuted :
-  exists cfg cs, chunks_nonempty cs = true /\ is_panic (run_client cfg cs) = true.
-Proof. exists ccfg0, w_lf. split; vm_compute; reflexivity. Qed.
-
-Theorem client_full_statement_refuted : ~ client_full_statement.
-Proof. intro H. specialize (H ccfg0 w_lf eq_refl). vm_compute in H. discriminate. Qed.
+(* whatever is not a proper acceptance fails *)
+Theorem client_fails : forall cfg cs,
+  chunks_nonempty cs = true ->
+  spec_client (cctx_of cfg) (stream_of cs) = CVFail ->
+  is_done (run_client cfg cs) = false /\ is_panic (run_client cfg cs) = false.
+Proof.
+  intros cfg cs Hn Hv. pose proof (client_conforms cfg cs Hn) as Hc. rewrite Hv in Hc.
+  destruct (run_client cfg cs); cbn in *; try discriminate. split; reflexivity.
+Qed.
 
 (* ---------------------------------------------------------------- instances (non-vacuity) *)
+Definition guid0 : bytes := B "0123456789abcdef0123456789abcdef".
 Definition ex_stream : bytes := B "OK " ++ guid0 ++ [x0d; x0a] ++ B "AGREE_UNIX_FD" ++ [x0d; x0a] ++ B "lmsg".
 Definition ex_chunks1 : list chunk := [mkChunk (firstn 20 ex_stream) []; mkChunk (skipn 20 ex_stream) [3%N; 4%N]].
 Definition ex_chunks2 : list chunk :=
@@ -658,9 +610,7 @@ Definition ex_cfg : ccfg := mkCcfg None Anonymous (Some guid0) true false (B "@"
 Example ex_client :
   chunks_nonempty ex_chunks1 = true /\ chunks_nonempty ex_chunks2 = true /\
   stream_of ex_chunks1 = stream_of ex_chunks2 /\ fds_of ex_chunks1 = fds_of ex_chunks2 /\
-  cknown_class (cctx_of ex_cfg) (stream_of ex_chunks1) = None /\
-  cverdict_of (cctx_of ex_cfg) (stream_of ex_chunks1) = CVDone true (B "lmsg") /\
-  empty_line_ahead (stream_of ex_chunks1) true = false /\
+  spec_client (cctx_of ex_cfg) (stream_of ex_chunks1) = CVDone true (B "lmsg") /\
   run_client ex_cfg ex_chunks2 =
     ODone (x00 :: B "AUTH ANONYMOUS 7a627573" ++ [x0d; x0a] ++ B "NEGOTIATE_UNIX_FD" ++ [x0d; x0a] ++ B "BEGIN" ++ [x0d; x0a])
           true (B "lmsg") [3%N; 4%N].
@@ -669,6 +619,11 @@ Proof. repeat split; vm_compute; reflexivity. Qed.
 (* a GUID other than the expected one: must fail, and does *)
 Example ex_client_mismatch :
   let s := B "OK 1123456789abcdef0123456789abcdef" ++ [x0d; x0a] ++ B "AGREE_UNIX_FD" ++ [x0d; x0a] in
-  cverdict_of (cctx_of ex_cfg) s = CVFail /\ cknown_class (cctx_of ex_cfg) s = None /\
-  is_done (run_client ex_cfg [mkChunk s []]) = false.
+  spec_client (cctx_of ex_cfg) s = CVFail /\ is_done (run_client ex_cfg [mkChunk s []]) = false.
 Proof. repeat split; vm_compute; reflexivity. Qed.
+
+(* the repaired defect: a bare LF where the answer to NEGOTIATE_UNIX_FD should start is an error, not a panic *)
+Example ex_client_bare_lf :
+  run_client ex_cfg [mkChunk (B "OK " ++ guid0 ++ [x0d; x0a; x0a]) []] =
+  OErr EHandshake (x00 :: B "AUTH ANONYMOUS 7a627573" ++ [x0d; x0a] ++ B "NEGOTIATE_UNIX_FD" ++ [x0d; x0a] ++ B "BEGIN" ++ [x0d; x0a]).
+Proof. vm_compute. reflexivity. Qed.
